@@ -115,8 +115,10 @@ def gen_plan(rng, tier, idx, opts):
             else:
                 ops.append({"op": "post_filter", "seed": s()})
                 has_filter = True
-        elif r < 0.80:
+        elif r < 0.76:
             ops.append({"op": "read", "what": rng.choice(reads)})
+        elif r < 0.80:
+            ops.append({"op": "scribble", "factor": rng.choice([2.0, -1.0, 0.5])})   # caller reuses the buffer it passed to init
         else:
             ops.append({"op": "corrupt", "seed": s(), "ncols": rng.randint(1, 4), "noise_seed": s(), "concat": rng.random() < 0.4})
     ops.append({"op": "read", "what": "big_H"})
@@ -255,11 +257,15 @@ def execute(plan):
                         m.raw = model_randn_c(op["seed"], int(Nr.sum()), int(Nt.sum() + NtE.sum()))
                     else:
                         M = arr(op["M"])
+                        handed = M.copy()
                         if ext:
-                            ch.init_from_channel_matrix(M.copy(), Nr, Nt, K, NtE)
+                            ch.init_from_channel_matrix(handed, Nr, Nt, K, NtE)
                         else:
-                            ch.init_from_channel_matrix(M.copy(), Nr, Nt, K)
+                            ch.init_from_channel_matrix(handed, Nr, Nt, K)
                         m.raw = M
+                        m.handed = handed
+                    if kind == "randomize":
+                        m.handed = None
                     m.Nr, m.Nt, m.NtE = list(op["Nr"]), list(op["Nt"]), list(op["NtE"])
                     if m.W is not None and old_Nr != m.Nr:
                         m.W_valid = False
@@ -298,6 +304,29 @@ def execute(plan):
                         bump(res["probes"], "set_pathloss_after_big_H_cached")
                     if cache[0] == "1":
                         bump(res["probes"], "set_pathloss_after_H_cached")
+                elif kind == "scribble":
+                    if m.raw is None or getattr(m, "handed", None) is None or not m.pl_valid:
+                        continue
+                    try:
+                        m.handed *= op["factor"]          # the library may have frozen the array: then nothing can change
+                        wrote = True
+                    except ValueError:
+                        wrote = False
+                    bump(res["probes"], "caller_wrote_into_handed_matrix" if wrote else "handed_matrix_is_read_only")
+                    if wrote:
+                        # either every view follows the caller's buffer or none does: try both, all views must agree on ONE
+                        old_raw = m.raw
+                        check_views(step, "all")
+                        if res["status"] != "ok":
+                            res["status"] = "ok"
+                            first = res["violations"].pop()
+                            m.raw = np.array(m.handed)
+                            check_views(step, "all")
+                            if res["status"] != "ok":
+                                res["violations"][-1]["detail"] = ("after the caller wrote into the matrix it had passed to init_from_channel_matrix the views are "
+                                                                   "incoherent: neither all-old nor all-new (%s | %s)" % (first["detail"][:150], res["violations"][-1]["detail"][:150]))
+                                res["violations"][-1]["signature"]["view"] = "aliasing"
+                                m.raw = old_raw
                 elif kind == "noise_var":
                     ch.noise_var = op["v"]
                     m.noise_var = op["v"]
